@@ -5,6 +5,7 @@ let dispatch (line : string) : string =
   | "c15" :: rest -> S_c15.run rest
   | "rd" :: rest -> S_rd.run rest
   | "wr" :: rest -> S_wr.run rest
+  | "tx" :: rest -> S_tx.run rest
   | s :: _ -> failwith ("unknown stream " ^ s)
   | [] -> ""
 
